@@ -80,6 +80,10 @@ def nightly_sysroot():
     return subprocess.check_output(["rustc", "+nightly", "--print", "sysroot"], text=True).strip()
 
 
+class SkipConfig(Exception):
+    """raised by a restricted context when a rule asks for a configuration that this run does not cover"""
+
+
 class ExtractError(Exception):
     def __init__(self, config, output):
         Exception.__init__(self, "fact extraction failed for config %s" % config)
